@@ -1860,6 +1860,20 @@ static Node *expr(Token **rest, Token *tok) {
   return node;
 }
 
+// Operands of comparisons, of ! && || and the condition of ?: may be
+// floating although the operator's result is an int. They must be
+// folded as floating values: eval() would truncate 0.5 to 0 first.
+static bool has_flonum_operand(Node *node) {
+  return is_flonum(node->lhs->ty) || is_flonum(node->rhs->ty);
+}
+
+static bool eval_truth(Node *node) {
+  add_type(node);
+  if (is_flonum(node->ty))
+    return eval_double(node) != 0;
+  return eval(node) != 0;
+}
+
 static int64_t eval(Node *node) {
   return eval2(node, NULL);
 }
@@ -1932,29 +1946,37 @@ static int64_t eval2(Node *node, char ***label) {
       return (uint64_t)eval(node->lhs) >> eval(node->rhs);
     return eval(node->lhs) >> eval(node->rhs);
   case ND_EQ:
+    if (has_flonum_operand(node))
+      return eval_double(node->lhs) == eval_double(node->rhs);
     return eval(node->lhs) == eval(node->rhs);
   case ND_NE:
+    if (has_flonum_operand(node))
+      return eval_double(node->lhs) != eval_double(node->rhs);
     return eval(node->lhs) != eval(node->rhs);
   case ND_LT:
+    if (has_flonum_operand(node))
+      return eval_double(node->lhs) < eval_double(node->rhs);
     if (node->lhs->ty->is_unsigned)
       return (uint64_t)eval(node->lhs) < eval(node->rhs);
     return eval(node->lhs) < eval(node->rhs);
   case ND_LE:
+    if (has_flonum_operand(node))
+      return eval_double(node->lhs) <= eval_double(node->rhs);
     if (node->lhs->ty->is_unsigned)
       return (uint64_t)eval(node->lhs) <= eval(node->rhs);
     return eval(node->lhs) <= eval(node->rhs);
   case ND_COND:
-    return eval(node->cond) ? eval2(node->then, label) : eval2(node->els, label);
+    return eval_truth(node->cond) ? eval2(node->then, label) : eval2(node->els, label);
   case ND_COMMA:
     return eval2(node->rhs, label);
   case ND_NOT:
-    return !eval(node->lhs);
+    return !eval_truth(node->lhs);
   case ND_BITNOT:
     return wrap_to_type(node->ty, ~eval(node->lhs));
   case ND_LOGAND:
-    return eval(node->lhs) && eval(node->rhs);
+    return eval_truth(node->lhs) && eval_truth(node->rhs);
   case ND_LOGOR:
-    return eval(node->lhs) || eval(node->rhs);
+    return eval_truth(node->lhs) || eval_truth(node->rhs);
   case ND_CAST: {
     // A conversion to _Bool yields 1 for every nonzero operand,
     // including a floating one that would truncate to zero.
@@ -2041,7 +2063,7 @@ static bool is_const_expr(Node *node) {
   case ND_COND:
     if (!is_const_expr(node->cond))
       return false;
-    return is_const_expr(eval(node->cond) ? node->then : node->els);
+    return is_const_expr(eval_truth(node->cond) ? node->then : node->els);
   case ND_COMMA:
     return is_const_expr(node->rhs);
   case ND_NEG:
